@@ -72,6 +72,10 @@ def yaml_dict(case):
 def _program(c):
     p = dict(t_tot=c["t_tot"], start=c["start"], stop=c["stop"], rate=c["rate"],
              holds=c.get("holds"), cnTemp=c.get("cnTemp"), Frand=c.get("Frand"))
+    if c.get("edit") is not None:
+        # "cnTemp-in-place": `S.opcond.cnTemp = <cnTemp of this programme>` on the EXISTING opcond object
+        # (the rest of the programme must be that of the previous run)
+        p["edit"] = c["edit"]
     if c.get("reconfig") is not None:
         # `S.configPath = <yaml with these entries merged in>` before this run
         p["reconfig"] = c["reconfig"]
@@ -91,7 +95,7 @@ def case_of_run(case, k):
     force at that run (all re-configurations up to `k` merged in)"""
     progs = programs(case)
     c = {key: v for key, v in case.items() if key not in ("runs",)}
-    c.update({key: v for key, v in progs[k].items() if key != "reconfig"})
+    c.update({key: v for key, v in progs[k].items() if key not in ("reconfig", "edit")})
     y = json.loads(json.dumps(case.get("yaml") or {}))
     for pr in progs[1:k + 1]:
         if pr.get("reconfig"):
@@ -231,7 +235,10 @@ def run_real(case):
     for k, prog in enumerate(progs):
         if k > 0:
             try:
-                S.opcond = make_opcond(prog)
+                if prog.get("edit") == "cnTemp-in-place":
+                    S.opcond.cnTemp = prog.get("cnTemp")
+                else:
+                    S.opcond = make_opcond(prog)
                 if prog.get("reconfig"):
                     import yaml as _yaml
 
